@@ -258,6 +258,14 @@ fn run(ctx: &Ctx, rep: &Report) {
         starts.push(("built-with-file".into(), p, Last::None));
     }
     let n_exhaustive = starts.len();
+    // a main header far above 8 KiB, and one above 16 MiB (rpm itself takes up to 256 MiB)
+    for (label, len) in [("built-header-40KiB", 40_000usize), ("built-header-17MiB", 17 << 20)] {
+        let mut c = BuildCfg { name: "bighdr".into(), version: "1.0".into(), license: "MIT".into(), arch: "noarch".into(), summary: "big header".into(), compression: Some(("none".into(), 0)), source_date: Some(1_600_000_000), ..Default::default() };
+        c.description = Some("long description line\n".repeat(len / 22));
+        if let Ok(p) = build(&c, &dir) {
+            starts.push((label.into(), p, Last::None));
+        }
+    }
     for i in 0..ctx.tier.pick(4, 40) {
         let mut r = Rng::for_case(ctx.seed, "C10-start", i);
         let c = gen_cfg(&mut r, &GenOpts { max_files: 3, all_levels: false, ..Default::default() });
